@@ -240,6 +240,8 @@ def s_conv_subscript(ctx, shape=(None,)):
     if squeezed:
         oks = len(squeezes) == 1
         if oks:
+            oks = len(squeezes[0]["inputs"]) == 2
+        if oks:
             axv = CM.const_of(squeezes[0]["inputs"][1])
             oks = isinstance(axv, list) and sorted(axv) == sorted(squeezed) and \
                 squeezes[0]["inputs"][0] is slices[0]["out_values"][0]
@@ -299,7 +301,8 @@ def _mk(shape):
 
 
 _SHAPES = [(0,), (1,), (2,)] + [(a, b) for a in range(3) for b in range(3) if (a, b) != (0, 0)] + \
-    [((0, x, y), 0) for x in range(2) for y in range(2)] + [(1, 1, 2), (0, 1, 2)]
+    [((0, x, y), 0) for x in range(2) for y in range(2)] + [(1, 1, 2), (0, 1, 2), (2, (0, 1, 0), 1), (2, 1, (0, 0, 1)),
+                                                         (1, 2, (0, 1, 0)), ((0, 1, 0), 2, 1), (2, 1, 1), (1, (0, 0, 1), 1)]
 _KN = {0: "slice", 1: "int", 2: "tensor", (0, 0, 0): "slice(None:None)", (0, 0, 1): "slice(None:c)",
        (0, 1, 0): "slice(c:None)", (0, 1, 1): "slice(c:c)"}
 
